@@ -600,14 +600,25 @@ class C10(System):
         """freshly built package + indexers with the same name table and the same data"""
         m = st.m
         groups = {g: self._groups(m.N)[g] for g in m.groups}
-        # the twin package is pooled per name table (its only mutable state are the two look-up caches, emptied here)
+        # The comparison package is pooled per name table to save the 1.3 ms of a build, but NOTHING mutable survives a use: the
+        # name table, the stored group compositions (arrays the library could scale in place), the look-up caches and every
+        # MaterialIndexer cache of this package are restored from the pristine snapshot taken when it was built.
         sig = (m.order, tuple(tuple(x) for x in m.aliases), tuple(sorted(groups.items())))
-        cs = self._pk.get(sig)
-        if cs is None:
+        ent = self._pk.get(sig)
+        if ent is None:
             if len(self._pk) > 64: self._pk.clear()
-            cs = self._pk[sig] = make_package(m.order, m.aliases, groups)
+            cs = make_package(m.order, m.aliases, groups)
+            snap = (dict((k, list(v) if isinstance(v, list) else v) for k, v in cs._index.items()),
+                    {k: v.copy() for k, v in cs._group_mol_compositions.items()},
+                    {k: v.copy() for k, v in cs._group_wt_compositions.items()})
+            ent = self._pk[sig] = (cs, snap)
+        cs, snap = ent
+        cs._index.clear(); cs._index.update((k, list(v) if isinstance(v, list) else v) for k, v in snap[0].items())
+        cs._group_mol_compositions.clear(); cs._group_mol_compositions.update((k, v.copy()) for k, v in snap[1].items())
+        cs._group_wt_compositions.clear(); cs._group_wt_compositions.update((k, v.copy()) for k, v in snap[2].items())
         cs._index_cache.clear()
-        fixtures.tmo().indexer.MaterialIndexer._index_caches.pop((m.phases, cs), None)
+        caches = fixtures.tmo().indexer.MaterialIndexer._index_caches
+        for k in [k for k in caches if k[1] is cs]: del caches[k]
         ci = st.CI.blank('l', cs); mi = st.MI.blank(m.phases, cs)
         for i in range(m.N):
             if m.d[i]: ci.data.dct[i] = float(m.d[i])
@@ -946,8 +957,15 @@ class C10(System):
                 tuple((repr(k), repr(v)) for k, v in c1.items()),
                 tuple((repr(k), repr(v)) for k, v in c2.items()), oc, st.next_alias,
                 tuple((repr(k), repr(v)) for k, v in st.mi2._index_cache.items()),
+                self._comp_digest(st.cs), None if st.tcs is None else self._comp_digest(st.tcs),
                 None if st.mi3 is None else (fixtures.sparse_digest(st.mi3.data), tuple((repr(k), repr(v)) for k, v in st.mi3._index_cache.items()),
                                              tuple((repr(k), repr(v)) for k, v in st.tcs._index_cache.items())))
+
+    @staticmethod
+    def _comp_digest(cs):
+        """the package's stored group compositions (mutable arrays shared by every indexer of the package)"""
+        return tuple((g, tuple(fixtures.r12(x) for x in cs._group_mol_compositions[g]), tuple(fixtures.r12(x) for x in cs._group_wt_compositions[g]))
+                     for g in sorted(cs._group_mol_compositions))
 
     def nontrivial(self, st, a, obs):
         i = st.info
